@@ -543,6 +543,10 @@ def call(root, op, want_corr=True):
         except Exception:
             rec['case'] = None
     # ---- monitors
+    if exn is not None and vref is not None and isinstance(exn, (IndexError, KeyError)) and isinstance(op.get('i'), int) \
+            and op['op'] in ('setitem', 'pop', 'delitem') and -len(vref[1]) <= op['i'] < len(vref[1]):
+        findings.append((SIG_VIEW, f'{op["op"]} on {type(parent).__name__}.{name}: index {op["i"]} exists '
+                                   f'(the view has {len(vref[1])} elements) but the call raised {type(exn).__name__}'))
     if exn is not None:
         what = []
         if [id(t) for t in T1] != [id(t) for t in T0]:
@@ -564,7 +568,9 @@ def call(root, op, want_corr=True):
             findings.append((SIG_ATOMIC, f'{op["op"]} on {type(parent).__name__}.{name} raised '
                                          f'{type(exn).__name__} after: ' + '; '.join(sorted(set(what)))))
     else:
-        if rec['bad_donor'] and not (op['op'] in ('set_opt', 'set_req') and info.get('same')) \
+        if op.get('kind') == 'cmt':
+            pass
+        elif rec['bad_donor'] and not (op['op'] in ('set_opt', 'set_req') and info.get('same')) \
                 and not _is_current(parent, name, kind, values, ch0):
             findings.append((SIG_REUSE, f'{op["op"]} on {type(parent).__name__}.{name} accepted a node that is attached elsewhere'))
         elif rec['child_span']:
@@ -903,8 +909,22 @@ def gen_view_step(rng, root, path, raw):
     w = getattr(parent, raw)
     n = len(w)
     base = {'parent': path, 'attr': raw, 'kind': 'rep'}
-    k = rng.choice(['setitem', 'setslice', 'setslice', 'delitem', 'delslice', 'insert', 'append', 'extend', 'pop'])
+    k = rng.choice(['setitem', 'setslice', 'setslice', 'delitem', 'delslice', 'insert', 'append', 'extend', 'pop',
+                    'revslice', 'revslice'])
     bad = rng.random() < 0.15
+    if k == 'revslice':
+        # xs[a:b] = [v, ...] with b < a (range(n)[a:b] is empty: a pure insertion at a), early in the list
+        if n < 2:
+            k = 'insert'
+        else:
+            a = rng.randint(1, min(n - 1, 3))
+            ds = []
+            for j in range(rng.choice([1, 1, 2])):
+                d = gen_donor(rng, root, parent, raw, 'rep', False)
+                if d is None:
+                    return None
+                ds.append(d)
+            return {**base, 'op': 'setslice', 's': [a, rng.randint(0, a - 1), rng.choice([None, 1])], 'donors': ds}
     if k in ('setslice', 'extend') and rng.random() < 0.3:
         ds = edge_batch(rng, root, parent, raw)
         if ds is not None:
@@ -923,7 +943,10 @@ def gen_view_step(rng, root, path, raw):
     if k in ('setslice', 'extend'):
         # step-1 slices with stop < start included (range(n)[3:1])
         a, b = rng.randint(0, n + 1), rng.randint(0, n + 1)
-        s_ = [a, b, rng.choice([None, 1])] if rng.random() < 0.6 else rand_slice(rng, n)
+        if rng.random() < 0.4 and n >= 2:
+            a = rng.randint(1, n - 1)
+            b = rng.randint(0, a - 1)              # range(n)[a:b] with b < a: an insertion at a
+        s_ = [a, b, rng.choice([None, 1])] if rng.random() < 0.7 else rand_slice(rng, n)
         ds = []
         for j in range(rng.choice([0, 1, 1, 2])):
             d = gen_donor(rng, root, parent, raw, 'rep', bad and rng.random() < 0.5)
@@ -1204,6 +1227,9 @@ def shrink_script(text, script, sig):
     return cur
 
 
+RICH = ('2000-01-01 * "p" "n" #t1 ^l1 #t2 ^l2 #t3\n    k1: 1\n    k2: "v"\n    k3: TRUE\n    Assets:A  1 USD\n'
+        '    Assets:B  2 USD\n    Assets:C  -3 USD\n2000-01-02 open Assets:A  USD, EUR, GBP, CAD\n'
+        '2000-01-03 custom "budget" "a" 1 TRUE Assets:A\n')
 _OPEN2 = '2000-01-01 open Assets:Foo  AAA, BBB\n2000-01-02 open Assets:Bar  CCC\n'
 _CUR = lambda d, i: [['raw_directives_with_comments', d], ['raw_currencies', i]]
 _RC = {'parent': [['raw_directives_with_comments', 0]], 'attr': 'raw_currencies', 'kind': 'rep'}
@@ -1246,6 +1272,8 @@ def run_slots(ctx: common.Ctx, props, n_docs: int, n_ops: int):
     for di in range(n_docs):
         mode = rng.choice(['general', 'general', 'general', 'views', 'views', 'cost'])
         text = cost_ledger(rng) if mode == 'cost' else gen_docs.ledger(rng, n_dir=rng.choice([1, 2, 3, 4, 6]))
+        if mode == 'views' and rng.random() < 0.7:
+            text = RICH + text
         root = gen_docs.parse_ok(text)
         if root is None:
             continue
@@ -1332,7 +1360,13 @@ RULE = ('seeded editing scripts over generated ledgers (1-6 directives): every n
         'optional strings, raw_text of value tokens); every index form (int, negative, out of range, slice, '
         'extended slice, empty, zero step); donors: deep copies of pool nodes and of nodes of the document, popped '
         'nodes, attached nodes of the document / of another document, the current child itself, duplicates in a '
-        'batch, children spanning a free-standing parent; a case is distinct by (document, slot kind, operation, '
+        'batch, children spanning a free-standing parent, attached values touching exactly one end of their store at '
+        'every batch position (raw lists and filtered views); histories that first read every view of a repeated '
+        'field (tags, links, currencies, raw_postings, raw_meta, meta, values, raw_directives) and then mix raw-level '
+        'and value-level calls (incl. xs[a:b] = vs with b < a) with the addressed-element oracle; refusal probes: '
+        'illegal cost combinations on every cost form, claim/unclaim of comments that are not there, unrepresentable '
+        'raw texts, missing indices / keys and size-mismatched slices on every view kind; '
+        'a case is distinct by (document, slot kind, operation, '
         'donor kinds, exception class)')
 
 
@@ -1346,7 +1380,7 @@ def run(ctx: common.Ctx):
         'mutators; they are watched by the monitors, not modelled here (C09/C10 model them)',
         'CPython slice/range semantics as modelled in PySeq.v (validated by C10 against CPython)']
     ctx.require_coq(['properties/C03'], extra_targets=['RepeatedRun'])
-    run_slots(ctx, ('C03',), ctx.scale(150, 1500), 8)
+    run_slots(ctx, ('C03',), ctx.scale(210, 1500), 8)
 
 
 def search(ctx: common.Ctx):
